@@ -135,6 +135,21 @@ static Plan plan_C01(Rng& r, const std::string& tier) {
 				else g.push(mk(c, "et_incl", {a, b, long(r.below(100) < 88 ? r.below(8) : 8 + r.below(5)), long(r.below(2))}));
 				if (r.chance(1, 6)) g.push(mk(c, "et_incl", {b, a, long(r.below(8)), long(r.below(2))}));
 			}
+			if (r.chance(1, 5)) {
+				// an operand that is the RESULT of an earlier operation (trimming, union, intersection, renumbering, reduction, witness), not a freshly loaded automaton
+				int src = r.chance(1, 2) ? a : b, x;
+				switch (r.below(7)) {
+					case 0: x = g.push(mk(c, "et_unreach", {src, long(r.below(2))}), 0); break;
+					case 1: x = g.push(mk(c, "et_useless", {src, long(r.below(2))}), 0); break;
+					case 2: x = g.push(mk(c, "et_union", {a, b, long(r.below(3))}), 0); break;
+					case 3: x = g.push(mk(c, "et_isect", {a, b, long(r.below(2))}), 0); break;
+					case 4: x = g.push(mk(c, "et_reindex", {src, long(r.below(5)), long(r.below(100000)), 0}), 0); break;
+					case 5: x = g.push(mk(c, "et_reduce", {src}), 0); break;
+					default: x = g.push(mk(c, "et_witness", {src}), 0); break;
+				}
+				g.push(mk(c, "et_incl_all", {x, r.chance(1, 2) ? b : a, long(r.below(100000))}));
+				g.push(mk(c, "et_incl", {r.chance(1, 2) ? a : b, x, long(r.below(8)), long(r.below(2))}));
+			}
 			if (r.chance(1, 6)) {
 				// the two operands SHARE their rule storage and differ in their final states only: a copy whose final set is changed
 				int a2 = g.push(mk(c, "et_copy", {a}), 0);
@@ -182,6 +197,24 @@ static Plan plan_C02(Rng& r, const std::string&) {
 					default: g.push(mk(c, "et_isect_bu", {a, b, long(r.below(4))}), 0); break;
 				}
 			}
+			if (r.chance(1, 4)) {
+				// "siblings": both operands descend from one automaton by copying and were extended separately afterwards, so they
+				// still share most of their rule storage (whole clusters, single tuple sets) although their values differ
+				int x = g.push(mk(c, "et_copy", {a}), 0), y = g.push(mk(c, "et_copy", {a}), 0);
+				std::set<long> stt = A.states(); std::vector<long> sv(stt.begin(), stt.end()); if (sv.empty()) sv.push_back(0);
+				int na = r.range(1, 2), nb = r.range(1, 2);
+				for (int i = 0; i < na; ++i) g.push(mk(c, "et_add", {x, long(r.below(2))}, rule_lit(r, pool, sv)));
+				for (int i = 0; i < nb; ++i) g.push(mk(c, "et_add", {y, long(r.below(2))}, rule_lit(r, pool, sv)));
+				if (r.chance(1, 3)) g.push(mk(c, "et_final", {y, r.pick(sv)}));
+				int kk = r.range(1, 3);
+				for (int i = 0; i < kk; ++i) {
+					switch (r.below(4)) {
+						case 0: g.push(mk(c, "et_union", {x, y, long(r.below(4))}), 0); break;
+						case 1: case 2: g.push(mk(c, "et_isect", {x, y, long(r.below(2))}), 0); break;
+						default: g.push(mk(c, "et_isect_bu", {x, y, long(r.below(2))}), 0); break;
+					}
+				}
+			}
 			if (r.chance(1, 5)) {
 				// an operand OBJECT gets another value and the operation is asked again
 				g.push(mk(c, "et_twist", {r.chance(1, 2) ? a : b, long(r.below(100000)), long(r.below(4))}));
@@ -221,8 +254,8 @@ static Plan plan_C03(Rng& r, const std::string&) {
 			int k = r.range(1, 3);
 			for (int i = 0; i < k; ++i) {
 				switch (r.below(3)) {
-					case 0: g.push(mk(c, "et_unreach", {a, long(r.below(2))}), 0); break;
-					case 1: g.push(mk(c, "et_useless", {a, long(r.below(2))}), 0); break;
+					case 0: g.push(mk(c, "et_unreach", {a, long(r.chance(1, 4) ? 2 : r.below(2))}), 0); break;
+					case 1: g.push(mk(c, "et_useless", {a, long(r.chance(1, 4) ? 2 : r.below(2))}), 0); break;
 					default: g.push(mk(c, "et_is_empty", {a})); break;
 				}
 			}
@@ -234,8 +267,8 @@ static Plan plan_C03(Rng& r, const std::string&) {
 				for (int i = 0; i < q && !g.alpha.empty(); ++i) {
 					int h = g.any();
 					switch (r.below(4)) {
-						case 0: g.push(mk(c, "et_unreach", {h, long(r.below(2))}), 0); break;
-						case 1: g.push(mk(c, "et_useless", {h, long(r.below(2))}), 0); break;
+						case 0: g.push(mk(c, "et_unreach", {h, long(r.chance(1, 4) ? 2 : r.below(2))}), 0); break;
+						case 1: g.push(mk(c, "et_useless", {h, long(r.chance(1, 4) ? 2 : r.below(2))}), 0); break;
 						default: g.push(mk(c, "et_is_empty", {h})); break;
 					}
 				}
@@ -262,7 +295,7 @@ static Plan plan_C04(Rng& r, const std::string&) {
 			TA A = gen_ta(r, pool, o);
 			int a = g.load(A, 0);
 			int k = r.range(1, 3);
-			for (int i = 0; i < k; ++i) g.push(mk(c, "et_sim", {a, long(r.below(2)), long(r.below(100000)), long(r.below(4))}));
+			for (int i = 0; i < k; ++i) g.push(mk(c, "et_sim", {a, long(r.below(2)), long(r.below(100000)), long(r.below(4)) + (r.chance(1, 4) ? 4 : 0)}));
 			if (r.chance(1, 4)) {
 				// the same OBJECT asked again after a near relative of A (same states, a rule or two tweaked) was assigned over it
 				TA B = derive_ta(r, pool, A, 3); if (r.chance(1, 2)) B = derive_ta(r, pool, B, r.chance(1, 2) ? 3 : 2);
